@@ -26,6 +26,17 @@ if REPO != "/repo" and "VERIF_HARNESS_DIR" not in os.environ:
     open(os.path.join(_h, "go.mod"), "w").write(_m)
     HARNESS = _h
     WORK = os.path.join("/tmp", "verif_work_" + hashlib.sha1(REPO.encode()).hexdigest()[:10])
+EVIDENCE = os.path.join(VERIF, "evidence")
+if REPO != "/repo":
+    # private copy of the Coq tree (the source-facts translators rewrite coq/Generated from the scratch
+    # repository; rsync -a keeps time stamps, so nothing that is up to date is rebuilt) and private evidence,
+    # so that runs against scratch repositories never disturb /verif's own build tree or evidence
+    _k = hashlib.sha1(REPO.encode()).hexdigest()[:10]
+    COQ = os.path.join("/tmp", "verif_coq_" + _k)
+    os.makedirs(COQ, exist_ok=True)
+    subprocess.run(["rsync", "-a", "--delete", os.path.join(VERIF, "coq") + "/", COQ + "/"], check=True)
+    WORK = os.path.join("/tmp", "verif_work_" + _k)
+    EVIDENCE = os.path.join(WORK, "evidence")
 ENV = dict(os.environ, GOFLAGS="-mod=mod", GOPROXY="off", GOSUMDB="off", GOTOOLCHAIN="local",
            CGO_ENABLED=os.environ.get("CGO_ENABLED", "0"))
 
@@ -60,7 +71,7 @@ class Check:
         self.t0 = time.time()
         self.work = os.path.join(WORK, pid)
         os.makedirs(self.work, exist_ok=True)
-        os.makedirs(os.path.join(VERIF, "evidence"), exist_ok=True)
+        os.makedirs(EVIDENCE, exist_ok=True)
         os.makedirs(os.path.join(VERIF, "replays"), exist_ok=True)
         self.env = dict(ENV, VERIF_SEED=str(seed), VERIF_TIER=tier)
         self.violations = []      # list of (replay_path, suffix)
@@ -92,7 +103,7 @@ class Check:
                 okf, flog = facts.regenerate(self)
                 self.facts_log = flog[-600:]
                 if not okf:
-                    self.broken.append("source facts no longer extractable (harness/facts.go): %s" % flog[-600:])
+                    self.broken.append("source facts no longer extractable (harness/facts.go, lockpaths.go, hdrtrans.go): %s" % flog[-600:])
         src = "\n".join(open(os.path.join(COQ, f)).read() for f in [props_file] + fact_files)
         stripped = re.sub(r"\(\*.*?\*\)", "", src, flags=re.S)
         theorems = re.findall(r"^\s*(?:Theorem)\s+([A-Za-z0-9_']+)", stripped, flags=re.M)
@@ -227,10 +238,8 @@ class Check:
         cov["broken"] = self.broken
         ev = {"property_id": self.pid, "tier": self.tier, "seed": self.seed, "level": level, "coverage": cov,
               "assumptions": assumptions or [], "wall_s": round(wall, 2), "violations": len(self.violations)}
-        with open(os.path.join(VERIF, "evidence", "%s.json" % self.pid), "w") as f:
+        with open(os.path.join(EVIDENCE, "%s.json" % self.pid), "w") as f:
             json.dump(ev, f, indent=1, default=str)
-        if REPO != "/repo":
-            sh("git checkout -- coq/Generated", cwd=VERIF, timeout=60)
         for fid, what in sorted(self.known_hits.items()):
             print("KNOWN-FINDING: property=%s %s [%s]" % (self.pid, what, fid))
         for path, suffix in self.violations:
